@@ -1,16 +1,16 @@
 SPECIFICATION Spec
 CONSTANTS
   Req = {r1, r2}
-  NKeys = 1
-  Prio <- P1
+  NKeys = 2
+  Prio <- P11
   MaxItem = 4
   MaxCtx = 4
-  MaxRevoke = 2
-  MaxFault = 2
+  MaxRevoke = 1
+  MaxFault = 0
   NBackoff = 1
-  MaxExpire = 0
+  MaxExpire = 2
   MaxRounds = 1
-  Variant = "bykey"
+  Variant = "code"
   Mode = "conn"
   LoginOutcomes <- FreshOnly
 SYMMETRY Symm
@@ -20,6 +20,7 @@ INVARIANT NoCrash
 INVARIANT SingleReauth
 INVARIANT LockDiscipline
 INVARIANT NoLeak
+INVARIANT NoExpiredUse
 INVARIANT ReauthOnlyOnRevocation
 INVARIANT NotReadyMeansEmpty
 PROPERTY LoginOnlyWhenNotReady
